@@ -267,8 +267,8 @@ def run(tier: str, seed: int) -> int:
                 ("g-partial", consts({"biclique"}, ncs=(3,), nns=(2,), maxsteps=2, depth=4, partial=True, trs=(True,),
                                      combs={"sum", "mean", "custom", "min"}), None)]
     else:
-        gens = [("g-flat", consts({"serial", "biclique"}, ncs=(1, 2), maxsteps=2, depth=4), 160),
-                ("g-rec", consts({"recurrent"}, maxsteps=3, depth=6), 600)]
+        gens = [("g-flat", consts({"serial", "biclique"}, ncs=(1, 2), maxsteps=2, depth=4), 100),
+                ("g-rec", consts({"recurrent"}, maxsteps=3, depth=6), 400)]
     first = None
     for name, c, budget in gens:
         g = gen_graph(chk, name, c)
